@@ -7,8 +7,8 @@ CHECKS = {
     "C05": {
         "level": "exploration",
         "tests": [
-            {"name": "TestC05Mutations", "checks": [40, 1500], "shards": [4, 16], "floor": 0.6},
-            {"name": "TestC05Soup", "checks": [4000, 200000], "shards": [2, 16], "floor": 0.6},
+            {"name": "TestC05Mutations", "checks": [40, 800], "shards": [4, 16], "floor": 0.6},
+            {"name": "TestC05Soup", "checks": [4000, 100000], "shards": [2, 16], "floor": 0.6},
             {"name": "TestC05Shapes", "enum": True},
             {"name": "TestC05Blobs", "enum": True},
             {"name": "TestC05AttrFlood", "enum": True},
